@@ -361,3 +361,91 @@ def replay(ctx, data):
     seq = (seq[0], seq[1], seq[2], list(seq[3]), list(seq[4]))
     _, viol = run_impl(seq)
     return viol is not None
+
+
+# ------------------------------------------------------------------ translator tie: formula anchors of accountant.py
+GEN_PATH = __import__("os").path.join(leanio.LEAN, "DPL", "Generated", "AccountantFormulas.lean")
+
+
+def generate(ctx):
+    """The arithmetic of `total()` / `remaining()` is read from /repo's current AST, translated to Lean terms over ℝ and
+    proved equal to what the hand-written model computes (lean/DPL/Model/Accountant.lean)."""
+    import os
+    from ..shim import REPO
+    from ..translate.formulas import Anchors
+    A = Anchors(REPO)
+    f, q = "diffprivlib/accountant.py", "BudgetAccountant.total"
+    e_sum = A.to_lean(A.find(f, q, aug_target="epsilon_sum"), {"epsilon": "e"})
+    e_exp = A.to_lean(A.find(f, q, aug_target="epsilon_exp_sum"), {"epsilon": "e"})
+    e_sq = A.to_lean(A.find(f, q, aug_target="epsilon_sq_sum"), {"epsilon": "e"})
+    env = {"epsilon_exp_sum": "x", "epsilon_sq_sum": "q", "slack": "s", "epsilon_sum": "n"}
+    drv = A.to_lean(A.find(f, q, assign_target="total_epsilon_drv"), env)
+    kov = A.to_lean(A.find(f, q, assign_target="total_epsilon_kov"), env)
+    dstep = A.to_lean(A.find(f, "BudgetAccountant.__total_delta_safe", aug_target="prod"), {"prod": "p", "delta": "d"})
+    rem = A.find(f, "BudgetAccountant.remaining", assign_target="delta")
+    if not isinstance(rem, ast_IfExp()):
+        raise RuntimeError("remaining(): `delta = … if … else …` anchor has a new shape")
+    rdelta = A.to_lean(rem.body, {"self.delta": "cd", "spent_delta": "sd", "k": "(k : ℝ)"})
+    src = f"""/- GENERATED on every run from /repo/diffprivlib/accountant.py by harness/props/c04.py — do not edit. -/
+import DPL.Model.Accountant
+import DPL.Proofs.RealCarrier
+import Mathlib.Tactic.Ring
+import Mathlib.Tactic.FieldSimp
+namespace DPL.Gen.Accountant
+open DPL
+
+/-- `epsilon_sum += …` -/
+noncomputable def sumTerm (e : ℝ) : ℝ := {e_sum}
+/-- `epsilon_exp_sum += …` -/
+noncomputable def expTerm (e : ℝ) : ℝ := {e_exp}
+/-- `epsilon_sq_sum += …` -/
+noncomputable def sqTerm (e : ℝ) : ℝ := {e_sq}
+/-- `total_epsilon_drv = …` -/
+noncomputable def drv (n x q s : ℝ) : ℝ := {drv}
+/-- `total_epsilon_kov = …` -/
+noncomputable def kov (n x q s : ℝ) : ℝ := {kov}
+/-- `prod += …` in `__total_delta_safe` -/
+noncomputable def deltaStep (p d : ℝ) : ℝ := p + ({dstep})
+/-- `delta = 1 - (…) ** (1 / k)` in `remaining` -/
+noncomputable def remDelta (cd sd : ℝ) (k : ℕ) : ℝ := {rdelta}
+
+/-- the loop body of `total()` as coded is the step of the model's `epsSums` -/
+theorem epsSums_step (spent : List (Spend ℝ)) (e d : ℝ) :
+    (epsSums (spent ++ [⟨e, d⟩])).sum = (epsSums spent).sum + sumTerm e ∧
+    (epsSums (spent ++ [⟨e, d⟩])).expSum = (epsSums spent).expSum + expTerm e ∧
+    (epsSums (spent ++ [⟨e, d⟩])).sqSum = (epsSums spent).sqSum + sqTerm e := by
+  refine ⟨?_, ?_, ?_⟩ <;>
+    simp only [epsSums, List.foldl_append, List.foldl_cons, List.foldl_nil, sumTerm, expTerm, sqTerm, transc_exp] <;>
+    ring
+
+theorem drv_eq (sm : Sums ℝ) (s : ℝ) : drvEps sm s = drv sm.sum sm.expSum sm.sqSum s := by
+  simp only [drvEps, drv, transc_sqrt, transc_log]
+
+theorem kov_eq (sm : Sums ℝ) (s : ℝ) : kovEps sm s = kov sm.sum sm.expSum sm.sqSum s := by
+  simp only [kovEps, kov, transc_sqrt, transc_log, transc_exp]
+
+theorem deltaStep_eq (deltas : List ℝ) (slack : ℝ) :
+    totalDeltaSafe deltas slack = (sortAsc (slack :: deltas)).foldl deltaStep 0 := by
+  have h : (fun p d : ℝ => p + (d - p * d)) = deltaStep := by
+    funext p d; unfold deltaStep; ring
+  simp only [totalDeltaSafe, h]
+
+/-- the closed form of `remaining`'s delta as coded is the model's -/
+theorem remDelta_eq (cd sd : ℝ) (k : ℕ) :
+    1 - Transc.pow ((1 - cd) / (1 - sd)) (1 / (k : ℝ)) = remDelta cd sd k := by
+  simp only [remDelta, transc_pow]; rfl
+
+end DPL.Gen.Accountant
+"""
+    os.makedirs(os.path.dirname(GEN_PATH), exist_ok=True)
+    old = open(GEN_PATH).read() if os.path.exists(GEN_PATH) else None
+    if old != src:
+        with open(GEN_PATH, "w") as fh:
+            fh.write(src)
+    ctx.count("formula_anchors", 7)
+    return {"build": ["DPL.Generated.AccountantFormulas"], "obligations": 5}
+
+
+def ast_IfExp():
+    import ast
+    return ast.IfExp
